@@ -99,6 +99,31 @@ def run(chk, repo, tier):
                f'{how} on module-level object `{name}`: results would depend on call history', loc)
     chk.ob('C10-d', 'E4-module-state', 'package', 'no module-level writes', not mw,
            f'{sum(1 for _ in repo.all_functions())} functions scanned', '')
+    # class-level mutable attributes mutated in place are shared between all instances
+    n_cls = 0
+    for m in repo.modules.values():
+        for c in m.classes.values():
+            for name, val in c.class_attrs.items():
+                if not isinstance(val, (ast.List, ast.Dict, ast.Set, ast.ListComp, ast.DictComp)) and not (
+                        isinstance(val, ast.Call) and (getattr(val.func, 'attr', '') in ('zeros', 'ones', 'array', 'empty')
+                                                       or getattr(val.func, 'id', '') in ('list', 'dict', 'set'))):
+                    continue
+                n_cls += 1
+                rebound = any(isinstance(n, ast.Attribute) and isinstance(n.ctx, ast.Store) and n.attr == name
+                              and isinstance(n.value, ast.Name) and n.value.id == 'self'
+                              for k in c.mro() for fn in k.methods.values() if fn.name == '__init__'
+                              for n in ast.walk(fn.node))
+                mutated = []
+                for k in [c] + [x for mm in repo.modules.values() for x in mm.classes.values() if x.is_subclass_of(c.key)]:
+                    for fn in k.methods.values():
+                        for w in eff.summary(fn).writes:
+                            if w.param == 'self' and w.detail.endswith('.' + name) and w.how != 'attribute store .' + name:
+                                mutated.append(f'{fn.key} ({w.how} at {w.loc})')
+                chk.ob('C10-d', 'E4-class-state', c.key, f'class-level mutable attribute `{name}`', rebound or not mutated,
+                       f'`{name}` is one object shared by every instance and is modified in place by ' + ', '.join(sorted(set(mutated))[:3])
+                       if mutated and not rebound else 'never modified in place (or rebound per instance in __init__)',
+                       f'{m.relpath}:{val.lineno}')
+    chk.stats['class_level_mutables'] = n_cls
     fx = os.path.join(VERIF, 'fixtures', 'module_state')
     frepo = Repo(fx)
     fmw = module_write_rule(frepo, Effects(frepo))
